@@ -14,13 +14,28 @@ Qed.
 
 (* ---------- CheckTrailingWhitespace ---------- *)
 
-Lemma trim_raw_spec t : trim_raw t = Ok (rtrimHspace t).
+(* what CheckTrailingWhitespace makes of one raw line: the blanks at the end go,
+   unless what is left would end in a backslash *)
+Definition trim_result (t : str) : str :=
+  if ends_backslash (rtrimHspace t) then t else rtrimHspace t.
+
+Lemma firstn_rtrim t : firstn (Z.to_nat (len (rtrimHspace t))) t = rtrimHspace t.
 Proof.
-  unfold trim_raw. destruct (rtrimHspace_split t) as (b & E & B).
+  destruct (rtrimHspace_split t) as (b & E & B). rewrite to_nat_len.
+  rewrite E at 2. rewrite firstn_app, firstn_all, Nat.sub_diag. simpl. apply app_nil_r.
+Qed.
+
+Lemma trim_raw_spec t : trim_raw t = Ok (trim_result t).
+Proof.
+  unfold trim_raw, trim_result. cbv zeta. rewrite firstn_rtrim.
+  destruct (rtrimHspace_split t) as (b & E & B).
   destruct (Z.eqb_spec (len (rtrimHspace t)) (len t)) as [L|L].
-  - f_equal. rewrite E in L at 2. rewrite len_app in L. unfold len in L.
-    destruct b; [rewrite app_nil_r in E; exact E|simpl in L; lia].
-  - rewrite to_nat_len.
+  - assert (Et : rtrimHspace t = t).
+    { rewrite E in L at 2. rewrite len_app in L. unfold len in L.
+      destruct b; [rewrite app_nil_r in E; symmetry; exact E|simpl in L; lia]. }
+    rewrite Et. destruct (ends_backslash t); reflexivity.
+  - destruct (ends_backslash (rtrimHspace t)); [reflexivity|].
+    rewrite to_nat_len.
     assert (S : skipn (length (rtrimHspace t)) t = b).
     { rewrite E at 2. rewrite skipn_app, skipn_all, Nat.sub_diag. reflexivity. }
     rewrite S. rewrite E at 1.
@@ -36,10 +51,24 @@ Proof.
   intros (x & -> & B). unfold blank_eq. rewrite strip_blanks_app, (strip_blanks_blank x B), app_nil_r. reflexivity.
 Qed.
 
+Lemma trim_result_trimmed t : trimmed_of t (trim_result t).
+Proof.
+  unfold trim_result. destruct (ends_backslash (rtrimHspace t)).
+  - exists []. rewrite app_nil_r. auto.
+  - destruct (rtrimHspace_split t) as (b & E & B). exists b. auto.
+Qed.
+
+Lemma trim_result_idem t : trim_result (trim_result t) = trim_result t.
+Proof.
+  unfold trim_result. destruct (ends_backslash (rtrimHspace t)) eqn:E.
+  - rewrite E. reflexivity.
+  - rewrite rtrimHspace_idem, E. reflexivity.
+Qed.
+
 (* no panic on a non-empty list of raw lines; only the last line loses its trailing blanks *)
 Lemma checkTrailingWhitespace_spec raws : raws <> [] ->
   exists init last, raws = init ++ [last] /\
-    checkTrailingWhitespace raws = Ok (init ++ [rtrimHspace last]).
+    checkTrailingWhitespace raws = Ok (init ++ [trim_result last]).
 Proof.
   induction raws as [|t r IH]; intro NE; [congruence|].
   destruct r as [|t2 r2].
@@ -59,7 +88,7 @@ Proof.
   rewrite R in H. inversion H; subst raws'. rewrite E.
   apply Forall2_app.
   - apply Forall2_refl. intro a. exists []. rewrite app_nil_r. auto.
-  - constructor; [|constructor]. destruct (rtrimHspace_split last) as (b & E2 & B). exists b. auto.
+  - constructor; [|constructor]. apply trim_result_trimmed.
 Qed.
 
 (* a second pass finds nothing to do *)
@@ -69,9 +98,9 @@ Proof.
   intro H. destruct raws as [|t r]; [discriminate|].
   destruct (checkTrailingWhitespace_spec (t :: r) ltac:(discriminate)) as (init & last & E & R).
   rewrite R in H. inversion H; subst raws'.
-  destruct (checkTrailingWhitespace_spec (init ++ [rtrimHspace last])) as (i2 & l2 & E2 & R2).
+  destruct (checkTrailingWhitespace_spec (init ++ [trim_result last])) as (i2 & l2 & E2 & R2).
   { destruct init; discriminate. }
-  apply app_inj_tail in E2 as [-> <-]. rewrite R2, rtrimHspace_idem. reflexivity.
+  apply app_inj_tail in E2 as [-> <-]. rewrite R2, trim_result_idem. reflexivity.
 Qed.
 
 (* ---------- checkDirectiveIndentation ---------- *)
@@ -157,24 +186,59 @@ Proof.
   - constructor; [reflexivity|exact IH].
 Qed.
 
-(* the fix keeps everything but blanks (the leading comment of a commented-out
-   assignment included), provided varnameOp is varname + blanks + op *)
+Lemma has_suffix_b_true suffix s : has_suffix_b suffix s = true ->
+  s = firstn (length s - length suffix) s ++ suffix.
+Proof.
+  unfold has_suffix_b, has_prefix. destruct (strip_prefix (rev suffix) (rev s)) as [r|] eqn:E; [|discriminate].
+  intros _. apply strip_prefix_some in E. apply (f_equal (@rev N)) in E. rewrite rev_involutive, rev_app_distr, rev_involutive in E.
+  remember (rev r) as x eqn:Hx. clear Hx r. subst s.
+  rewrite app_length, Nat.add_sub, firstn_app, firstn_all, Nat.sub_diag. simpl. rewrite app_nil_r. reflexivity.
+Qed.
+
+(* what the fix does, exactly: in the first raw line that holds it (and only if the text occurs
+   exactly once), leadingComment ++ varnameOp ++ spaceBeforeValue is replaced by the same text
+   without the blanks b directly in front of the operator and with a re-aligned blank a after
+   it.  The bytes of the name -- blanks inside ${...} and an escaped '#' included -- stay. *)
+Theorem spaceAfterVarname_exact raws vn sp op p0 raws' :
+  fixSpaceAfterVarname raws vn sp op p0 = Ok raws' ->
+  raws' = raws \/
+  exists name b a, vo p0 = name ++ b ++ op /\ rtrimHspace name = name /\ blankb b = true /\ blankb a = true /\
+    raws' = replaceAfter raws [] (lc p0 ++ (name ++ b ++ op) ++ sbv p0) (lc p0 ++ (name ++ op) ++ a).
+Proof.
+  intros H. unfold fixSpaceAfterVarname in H.
+  destruct (is_nil sp); [inversion H; left; reflexivity|].
+  destruct (_ && _); [inversion H; left; reflexivity|].
+  destruct (_ && _); [inversion H; left; reflexivity|].
+  destruct (has_suffix_b op (vo p0)) eqn:S; cbn [negb] in H; [|inversion H; left; reflexivity].
+  apply has_suffix_b_true in S.
+  set (pre := firstn (length (vo p0) - length op) (vo p0)) in *.
+  destruct (alignWith (lc p0 ++ rtrimHspace pre ++ op) (lc p0 ++ vo p0 ++ sbv p0)) as [after|] eqn:A; [|discriminate].
+  cbn [lift bind] in H. inversion H; subst raws'; clear H.
+  apply alignWith_spec in A as (a & -> & Ba).
+  destruct (rtrimHspace_split pre) as (b & Eb & Bb).
+  right. exists (rtrimHspace pre), b, a. repeat split.
+  - rewrite S at 1. rewrite Eb at 1. rewrite <- app_assoc. reflexivity.
+  - apply rtrimHspace_idem.
+  - exact Bb.
+  - exact Ba.
+  - assert (EV : vo p0 = rtrimHspace pre ++ b ++ op).
+    { rewrite S at 1. rewrite Eb at 1. rewrite <- app_assoc. reflexivity. }
+    rewrite <- EV. rewrite <- !app_assoc. reflexivity.
+Qed.
+
+(* the fix keeps everything but blanks (the leading comment of a commented-out assignment
+   included), whatever the splitter's varnameOp looks like *)
 Theorem spaceAfterVarname_blanks_only raws vn sp op p0 raws' :
-  blankb (sbv p0) = true -> blankb sp = true -> vo p0 = vn ++ sp ++ op ->
+  blankb (sbv p0) = true ->
   fixSpaceAfterVarname raws vn sp op p0 = Ok raws' -> Forall2 blank_eq raws raws'.
 Proof.
-  intros B2 B3 EV H. unfold fixSpaceAfterVarname in H.
-  destruct (is_nil sp); [inversion H; subst; apply Forall2_refl; reflexivity|].
-  destruct (_ && _); [inversion H; subst; apply Forall2_refl; reflexivity|].
-  destruct (_ && _); [inversion H; subst; apply Forall2_refl; reflexivity|].
-  destruct (alignWith (lc p0 ++ vn ++ op) (lc p0 ++ vo p0 ++ sbv p0)) as [after|] eqn:A; [|discriminate].
-  cbn [lift bind] in H. inversion H; subst; clear H.
-  apply alignWith_spec in A as (a & -> & Ba).
-  unfold replaceAfter. destruct (negb _); [apply Forall2_refl; reflexivity|].
-  apply replace_first_blank_eq. unfold blank_eq. simpl app.
-  rewrite EV, !strip_blanks_app.
-  rewrite (strip_blanks_blank _ B2), (strip_blanks_blank _ B3), (strip_blanks_blank _ Ba).
-  simpl. rewrite !app_nil_r. reflexivity.
+  intros B2 H. destruct (spaceAfterVarname_exact _ _ _ _ _ _ H) as [->|(name & b & a & EV & _ & Bb & Ba & ->)].
+  - apply Forall2_refl. reflexivity.
+  - unfold replaceAfter. destruct (negb _); [apply Forall2_refl; reflexivity|].
+    apply replace_first_blank_eq. unfold blank_eq. simpl app.
+    rewrite !strip_blanks_app.
+    rewrite (strip_blanks_blank _ B2), (strip_blanks_blank _ Bb), (strip_blanks_blank _ Ba).
+    simpl. rewrite !app_nil_r. reflexivity.
 Qed.
 
 (* a commented-out assignment keeps its comment marker (it did not before /repo 42e6bf1) *)
